@@ -73,6 +73,7 @@ type S struct {
 	r          *gen.Rng // the stream driving this run (c.R unless the run is replicated)
 	h          *Handle
 	m          *model.DB
+	budgetExtra int // added to the call budget of the next operation (size of its own input)
 	schemas    map[string]*gen.Schema
 	ever       map[string]map[string]bool // ids ever used, per collection
 	genIDs     map[string]bool            // every id clover generated in this run
@@ -102,6 +103,11 @@ func idsOf(ds []map[string]any) []string {
 
 func NewS(c *core.Ctx, h *Handle) *S {
 	c.Backend = h.Backend
+	if h.MS != nil {
+		// the calling goroutine issues every operation; work another goroutine does on the store later is held back
+		// until three more operations have started (see mon.Store.SetDriver)
+		h.MS.SetDriver(3)
+	}
 	return &S{c: c, r: c.R, h: h, m: model.NewDB(), schemas: map[string]*gen.Schema{}, ever: map[string]map[string]bool{}, genIDs: map[string]bool{}}
 }
 
@@ -119,7 +125,8 @@ func (s *S) run(name string, read bool, f func() error) (string, error) {
 		for _, mc := range s.m.Colls {
 			docs += len(mc.Docs)
 		}
-		s.h.MS.SetBudget(20000 + 600*docs)
+		s.h.MS.SetBudget(20000 + 600*docs + s.budgetExtra)
+		s.budgetExtra = 0
 	}
 	err := Do(f)
 	st := s.h.EndOp()
@@ -507,7 +514,13 @@ func (s *S) Insert(coll string, docs []map[string]any, one bool) []string {
 	if one {
 		n = fmt.Sprintf("InsertOne(%q)", coll)
 	}
-	for _, d := range docs {
+	for i, d := range docs {
+		if len(docs) > 64 && i >= 8 && i < len(docs)-8 {
+			if i == 8 {
+				s.c.Log("   ... %d documents not printed ...", len(docs)-16)
+			}
+			continue
+		}
 		s.c.Log("   doc %s", model.Render(d))
 	}
 	cds := make([]*document.Document, len(docs))
@@ -515,6 +528,7 @@ func (s *S) Insert(coll string, docs []map[string]any, one bool) []string {
 		cds[i] = model.NewDoc(d)
 	}
 	var retID string
+	s.budgetExtra = 40 * len(docs) // the batch itself, not only the stored documents, bounds the store calls of an insert
 	got, err := s.run(n, false, func() (e error) {
 		if one {
 			retID, e = s.h.DB.InsertOne(coll, cds[0])
